@@ -43,8 +43,7 @@ class AES128Proxy(AES128Base):
         decryptor = blockfeeder.Decrypter(mode, padding="none")
         plaintext_padded = decryptor.feed(data)
         plaintext_padded += decryptor.feed()
-        plaintext = plaintext_padded.rstrip(b"\0")
-        return plaintext
+        return plaintext_padded
 
     def mac(self, data: bytes) -> bytes:
         return self.encrypt(data)[-16:]
